@@ -202,11 +202,13 @@ class SimSocket:
     def sendall(self, data, flags=0):
         c = self._conn
         sim = self._net.sim
-        data = bytes(data)
         if self._closed:
             c.write_after_close += 1
             raise OSError(errno.EBADF, "Bad file descriptor")
         sim.yield_point("send")
+        # the kernel copies the caller's buffer when the call is made, i.e. after any switch that happens
+        # before it: a buffer another thread has refilled meanwhile goes out with the new contents
+        data = bytes(data)
         idx = c.send_calls
         c.send_calls += 1
         f = c.send_fault
@@ -216,11 +218,16 @@ class SimSocket:
             f.fired += 1
             self._net.count("send_fault_" + f.kind)
             sim.note("send-fault", c.id, idx, f.kind)
-            raise f.make_exc()
+            exc = f.make_exc()
+            if isinstance(exc, BrokenPipeError):
+                self._net.epipe()
+            raise exc
         if c.reset:
+            self._net.epipe()
             raise BrokenPipeError(errno.EPIPE, "Broken pipe")
         if c.server_shut_wr or c.server_closed:
             c.write_after_close += 1
+            self._net.epipe()
             raise BrokenPipeError(errno.EPIPE, "Broken pipe")
         if c.sndbuf is None:
             c.s2c += data
@@ -342,6 +349,18 @@ class SimSSLSocket(SimSocket, ssl.SSLSocket):
     def _snd_timeout(self):
         return self._timeout
 
+    def unwrap(self):
+        """Orderly TLS shutdown: a close_notify has to be written to (and read from) the peer."""
+        c = self._conn
+        self._net.sim.yield_point("send")
+        f = c.send_fault
+        if f is not None and c.send_calls >= f.index:
+            f.fired += 1
+            raise f.make_exc()
+        if c.reset:
+            raise ConnectionResetError(errno.ECONNRESET, "Connection reset by peer")
+        return self
+
 
 class FakeTLSContext:
     """Stub for ssl.SSLContext: consumes a fake ClientHello record with
@@ -446,6 +465,7 @@ class Net:
         self.bound = False
         self.listening = False
         self.accept_q = deque()
+        self.on_epipe = None
         self.conns = []
         self.counters = {}
         self.listener = SimListenSocket(self)
@@ -454,6 +474,12 @@ class Net:
 
     def count(self, k, n=1):
         self.counters[k] = self.counters.get(k, 0) + n
+
+    def epipe(self):
+        """A write to a connection whose peer is gone: the kernel also sends SIGPIPE.  Python ignores that
+        signal from start-up; a program that restored the default disposition is killed by it."""
+        if self.on_epipe is not None:
+            self.on_epipe()
 
     def connect(self, client_addr=None):
         cid = len(self.conns)
